@@ -63,7 +63,7 @@ type cfg struct {
 type slowStore struct{ *eventbus.MemoryStore }
 
 func (s slowStore) Append(ctx context.Context, e *eventbus.Event) (eventbus.Offset, error) {
-	time.Sleep(4 * time.Millisecond)
+	vrt.Sleep(4 * time.Millisecond) // virtual time under the scheduler
 	return s.MemoryStore.Append(context.Background(), e)
 }
 
@@ -180,12 +180,18 @@ func runCfgBody(c cfg) (out []string) {
 	}
 	var wants []want
 	pubs := []func(){
-		func() { eventbus.Publish(bus, EvA{1, "x"}); wants = append(wants, want{eventbus.EventType(EvA{}), `{"ID":1,"Name":"x"}`}) },
+		func() {
+			eventbus.Publish(bus, EvA{1, "x"})
+			wants = append(wants, want{eventbus.EventType(EvA{}), `{"ID":1,"Name":"x"}`})
+		},
 		func() {
 			eventbus.PublishContext(bus, context.Background(), EvB{7})
 			wants = append(wants, want{"ev.b.v1", `{"N":7}`})
 		},
-		func() { eventbus.Publish(bus, EvA{2, "y"}); wants = append(wants, want{eventbus.EventType(EvA{}), `{"ID":2,"Name":"y"}`}) },
+		func() {
+			eventbus.Publish(bus, EvA{2, "y"})
+			wants = append(wants, want{eventbus.EventType(EvA{}), `{"ID":2,"Name":"y"}`})
+		},
 	}
 	for i, p := range pubs {
 		before := len(seenInHandler)
@@ -298,6 +304,43 @@ func permute(a []int, f func([]int)) {
 		}
 	}
 	rec(0)
+}
+
+// slowInst explores a slow-store configuration: a timer landing first or the append
+// finishing first are explorer choices wherever the code under test selects on both.
+type slowInst struct {
+	c   cfg
+	out []string
+	st  string
+}
+
+func (s *slowInst) Body() {
+	s.out = runCfgBody(s.c)
+	vrt.Join()
+}
+func (s *slowInst) Outcome() string { return s.st + fmt.Sprint(len(s.out)) }
+func (s *slowInst) Check(res *vrt.Result) []vrt.Violation {
+	s.st = res.Status.String()
+	var vs []vrt.Violation
+	if res.Status != vrt.StatusOK {
+		vs = append(vs, vrt.Violation{Kind: "configuration", Sig: "publishing blocked for ever or crashed: " + res.Status.String() + " [" + s.c.shape() + "]", Detail: s.c.String() + "\n" + res.Msg})
+	}
+	for _, v := range s.out {
+		vs = append(vs, vrt.Violation{Kind: "configuration", Sig: stripNum(v) + " [" + s.c.shape() + "]", Detail: s.c.String() + "\n" + v})
+	}
+	return vs
+}
+
+func slowScenarios() []vrt.Scenario {
+	var l []vrt.Scenario
+	for _, cf := range configs(false) {
+		if !cf.Slow {
+			continue
+		}
+		cf := cf
+		l = append(l, vrt.Scenario{Name: cf.String(), New: func() vrt.Instance { return &slowInst{c: cf} }})
+	}
+	return l
 }
 
 // ---------------------------------------------------------------- values
@@ -561,6 +604,9 @@ func run(c *h.Check) {
 	for _, sc := range schedScenarios(c.Thorough()) {
 		c.Explore(sc, bound, 300000, false)
 	}
+	for _, sc := range slowScenarios() {
+		c.Explore(sc, bound, 20000, false)
+	}
 }
 
 func stripNum(s string) string {
@@ -578,7 +624,7 @@ func stripNum(s string) string {
 func replay(c *h.Check, rf *h.ReplayFile) []vrt.Violation {
 	var vs []vrt.Violation
 	if len(rf.Schedule) > 0 || rf.Scenario != "" {
-		for _, sc := range schedScenarios(true) {
+		for _, sc := range append(schedScenarios(true), slowScenarios()...) {
 			if sc.Name == rf.Scenario {
 				return h.ReplaySchedule(sc, rf)
 			}
